@@ -1056,6 +1056,15 @@ class SCFGIO:
         scfg = SCFGIO.make_scfg(
             graph_dict, outer_graph, block_ref_dict, name_gen
         )
+        # The outermost regions record the name of the region that the whole
+        # graph represents, restore it such that writing the graph again
+        # yields the same dictionary.
+        for name in sorted(outer_graph):
+            recorded = graph_dict["blocks"][name].get("parent_region")
+            if recorded is not None:
+                name_gen.reserve(recorded)
+                object.__setattr__(scfg.region, "name", recorded)
+                break
 
         return scfg, block_ref_dict
 
